@@ -100,6 +100,10 @@ func c03Check(c *oracleCtx, tree *ast.Program, cfg, cls string, input map[string
 			fail("tree-mismatch", c02Diff(want, got))
 			return
 		}
+		if codeHasHTMLCommentOpener(code) {
+			fail("html-comment-opener", "the printed text contains `<!--`, which a JavaScript script reads as a comment opener")
+			return
+		}
 		if again := oaCompile(cfg, re); again != code {
 			fail("not-a-fixed-point", fmt.Sprintf("compiling the re-parsed tree gives %q", oaClip(again, 300)))
 		}
@@ -219,6 +223,16 @@ func oracleC03(c *oracleCtx) {
 		}
 		c.count(src)
 		c03Parsed(c, src, c03Cfgs, true)
+	}
+
+	// directed families (see internal/treegen/families.go)
+	for _, e := range treegen.SignAdjacency() {
+		c03Programmatic(c, treegen.ExprProgram(e), c03Cfgs, true)
+	}
+	for i, e := range treegen.UpdateOverAny() {
+		if c.thorough() || i%2 == int(c.seed%2) {
+			c03Programmatic(c, treegen.ExprProgram(e), c03Cfgs, true)
+		}
 	}
 
 	c03Witnesses(c)
